@@ -203,3 +203,7 @@ def run(ctx):
     # the dry-run model (coq/Engine/HistDry.v, theorems of Properties_C19dry.v) run against the real engine: dry runs interleaved
     # with real builds in histories inside the model's fragment
     histmodel.hook(ctx, 'C19', dry=0.5, quick=300, thorough=3000, key='hist_model_dry_runs')
+    # the listing tools (coq/Engine/ToolsDefs.v: PrintCommands / CommandCollector / InputsCollector; theorems of
+    # Properties_C19tools.v) evaluated inside Coq against the real binary's -t commands / commands -s / compdb-targets / inputs -d
+    import toolsmodel
+    toolsmodel.hook(ctx)
